@@ -269,6 +269,7 @@ func Props() []*harness.Prop {
 		{ID: "C07", Gen: c07Gen, Exec: c07Exec},
 		{ID: "C08", Gen: c08Gen, Exec: c08Exec},
 		{ID: "C09", Gen: c09Gen, Exec: c09Exec},
+		{ID: "C11", Gen: c11Gen, Exec: c11Exec},
 		{ID: "C16", Gen: c16Gen, Exec: c16Exec},
 		{ID: "C17", Gen: c17Gen, Exec: c17Exec},
 		{ID: "C20", Gen: c20Gen, Exec: c20Exec},
